@@ -339,8 +339,12 @@ def run_shards(prop, header, case_type, driver, literals, shard_size=400, timeou
     reports, errors = [], []
     with concurrent.futures.ThreadPoolExecutor(max_workers=JOBS) as ex:
         futs = [(off, path, ex.submit(_run_shard, path, timeout)) for off, path in paths]
-        for off, path, f in futs:
-            rc, out, dt = f.result()
+        results = [(off, path, f.result()) for off, path, f in futs]
+    if True:
+        for off, path, (rc, out, dt) in results:
+            if rc < 0 or rc in (137, 139):
+                # coqc was killed by a signal (memory pressure while 16 shards ran at once): evaluate it again, alone
+                rc, out, dt = _run_shard(path, timeout)
             rep = _parse_report(out) if rc == 0 else None
             if rep is None:
                 errors.append({"shard": os.path.relpath(path, VERIF), "rc": rc, "out": out[-1500:]})
